@@ -103,7 +103,7 @@ func (r *DefaultReader) acquireSlow(n int) int {
 		r.bufReadOnly = false
 	}
 
-	for i := 0; i < maxConsecutiveEmptyReads; i++ {
+	for i := 0; i < maxConsecutiveEmptyReads; {
 		m, err := r.rd.Read(r.buf[len(r.buf):cap(r.buf)])
 		r.buf = r.buf[:len(r.buf)+m]
 		if err != nil {
@@ -117,7 +117,13 @@ func (r *DefaultReader) acquireSlow(n int) int {
 		if n <= len(r.buf)-r.ri {
 			return n
 		}
+		if m > 0 {
+			i = 0 // only consecutive empty reads count
+		} else {
+			i++
+		}
 	}
+	r.err = io.ErrNoProgress
 	return len(r.buf) - r.ri
 }
 
